@@ -15,6 +15,21 @@ CHECKS = {
              "assumed within 1e-12 relative (checked on every sampled case, not proved).",
         technique="Lean 4 proof over translator-generated tables + differential correspondence",
         design="§6 C06"),
+    "C14": dict(
+        text="Lean theorems about the model of engine.cpp's initial-state processing as a function of the primitive draw "
+             "stream, for all states / sizes / draw streams: mode selection (auto = redist for stochastic engines, none for "
+             "Euler; script-accepted modes all processed, others rejected), species-major <-> cell-major layout round trip "
+             "(generated index formulas), 'none' is the identity, redistribution yields non-negative integers with per-species "
+             "total = floor of the real total and support inside the support of the input, Poisson-mode layout (k-th draw has "
+             "the k-th positive amount as mean and is stored at that entry; zero stays zero); progress interval for the "
+             "correction loop (termination w.p.1 is partial: no measure theory). Tie: translator group Stoch (statement lists "
+             "of GenerateStochasticDistribution and of the dispatch pinned against the modelled snapshot, switch constant, "
+             "Python accepted modes/default) + draw-replay correspondence on the rebuilt, draw-logging engine + independent "
+             "oracle on sample 0 (sandboxed with time-out).",
+        note="Lean kernel + {propext, Classical.choice, Quot.sound}; translator; shimmed <random>; distributions of the std "
+             "primitives and mt19937 trusted; termination only as a progress-interval theorem.",
+        technique="Lean 4 proof over a draw-stream model + draw-replay differential correspondence",
+        design="§6 C14"),
 }
 
 ALL = ["C%02d" % i for i in range(1, 21)]
